@@ -32,6 +32,18 @@ Definition res_eqb {A} (eqb : A -> A -> bool) (a b : res A) : bool :=
   | _, _ => false
   end.
 
+(* Correspondence on outcomes: the property fixes WHETHER a reply is turned into data or into an error,
+   not the class or wording of the error.  Two errors correspond unless exactly one of them is the
+   harness-private 'script exhausted' (which means the code went on reading, i.e. did not give up). *)
+Definition err_sim (a b : err) : bool :=
+  Bool.eqb (err_eqb a EExhausted) (err_eqb b EExhausted).
+Definition res_sim {A} (eqb : A -> A -> bool) (a b : res A) : bool :=
+  match a, b with
+  | Ok x, Ok y => eqb x y
+  | Err e, Err f => err_sim e f
+  | _, _ => false
+  end.
+
 Definition byteb (b : N) : bool := b <? 256.
 Definition len (l : list N) : N := N.of_nat (length l).
 
